@@ -2,6 +2,8 @@ import Blue.Proofs.LogCrash
 import Blue.Proofs.LogTrunc
 import Blue.Proofs.FlushCrash
 import Blue.Proofs.StoreCrash
+import Blue.Proofs.StoreFault
+import Blue.Proofs.StoreGc
 import Blue.Proofs.FsyncCore
 /-! # Property C02 — acknowledged writes survive any crash; recovery is all-or-nothing per batch
 
@@ -18,8 +20,29 @@ the real crash image of every prefix with the real code.
 `crash_recover` is at batch granularity with whole system calls; a torn log tail is
 `truncated_log_prefix` (C12), a torn manifest `torn_manifest` (C13).  Assumption shared with the
 run-time images: directory operations are durable at once and in program order (the code never
-fsyncs a directory).  Not covered by a theorem: GC drops inside a compaction (C05), a flush
-racing a compaction, a crash during recovery from an earlier crash (explored by the check). -/
+fsyncs a directory).
+
+`Blue.StoreFault` continues past the first crash.  `image b fs` is the directory a new process
+finds (persistence model a / b), `recoverOps` what `KeyValueStore::open` does to ANY such directory
+(`recover_one` per log in ascending order — build and sync the SST, link it unless a file of that
+content is there, add it to the manifest unless listed, remove the temporary, move the log to the
+trash —, `cleanup_orphans`, `start_new_log`); an `Epoch` is one incarnation of the store (open,
+then a history, cut anywhere).  A system call that FAILS (`faultOps`) ends the block and the
+incarnation — every call of the write, flush, compaction and recovery paths is followed by `?` —
+except the renames into trash/ whose result the code ignores (`absorbed`); the client gets the
+error and no acknowledgement (`faultAcked`), drops the store (which flushes the log's BufWriter:
+`retried`) and opens it again.  The check injects the failure into the real store with
+`strace -e inject=` and compares: kind of the failed call, surfaced or absorbed, acknowledgements,
+calls issued after it, batches found by the reopen under both models (`crash fault`); it traces the
+reopen of sampled crash images, compares its calls with `recoverOps` (`crash recover`), crashes it
+before each of its own calls and compares again (`crash recover2`).
+
+GC compactions: `gc_compaction_atomic` (a compaction with any outputs is all-or-nothing at every
+crash point; its operation list `compactOps` is compared with every compaction block of the real
+store); a HISTORY that continues after a GC compaction is outside `crash_recover`, whose
+invariant counts batches (what may be dropped is C05).  Not modelled: a flush racing a compaction.
+`KeyValueStore::poison` is a no-op in the code (`// TODO(rescrv): Actually poison here`): that the
+client stops using a store instance after an error is an assumption about the CLIENT. -/
 namespace Blue.Props.C02
 open Blue.StoreCrash
 
@@ -61,12 +84,193 @@ example :
     let h : List Client := [.put, .flush, .put, .flush, .compact (fun _ => true) [[1, 0]], .put]
     recoverB (run fs0 ((opsOf h kv0).take 28)) = some [1, 0] := by decide
 
+/-! ### faults, and crashes during recovery -/
+section Fault
+open Blue.StoreFault
+
+/-- **a failed system call is surfaced, never acknowledged, and leaves a store that reopens with
+    every acknowledged write**: whatever history, whichever of its system calls fails (`op`, call
+    number `i`; every call except the renames into trash/ the code ignores the result of), whether
+    or not the failed call took effect nevertheless: the client gets the error, it holds exactly the
+    acknowledgements issued before the failed call, and the directory reopens — after the process
+    exit (a) and after a power loss on top of it (b) — to a permutation of the batches `0 … k-1`
+    with `acknowledged ≤ k ≤ appended` -/
+theorem fault_surfaces (h : List Client) (i : Nat) (e : Bool) (op : Op)
+    (hi : (opsOf h kv0)[i]? = some op) (hc : isCall op = true) (hs : absorbed op = false) :
+    surfaced (opsOf h kv0) i = true
+    ∧ faultAcked (opsOf h kv0) i = acked ((opsOf h kv0).take i)
+    ∧ Ok (recoverB (run fs0 (faultOps (opsOf h kv0) i e))) (faultAcked (opsOf h kv0) i)
+        (appended ((opsOf h kv0).take (i + 1)))
+    ∧ Ok (recoverA (run fs0 (faultOps (opsOf h kv0) i e))) (faultAcked (opsOf h kv0) i)
+        (appended ((opsOf h kv0).take (i + 1))) :=
+  Blue.StoreFault.fault_surfaces h i e op hi hc hs
+
+/-- **absorbed faults**: any number of renames of SSTs into trash/ fail (the code goes on, the
+    files stay in sst/), the run is crashed anywhere: the reopen yields what `crash_recover` says -/
+theorem absorbed_faults (h : List Client) {ops' : List Op} (hs : Skips ops' (opsOf h kv0)) (n : Nat) :
+    Ok (recoverB (run fs0 (ops'.take n))) (acked (ops'.take n)) (appended (ops'.take n))
+    ∧ Ok (recoverA (run fs0 (ops'.take n))) (acked (ops'.take n)) (appended (ops'.take n)) :=
+  Blue.StoreFault.absorbed_faults h hs n
+
+/-- **an absorbed failure, and the history goes on on the directory as it is** (`skip = some i`:
+    call `i` is a rename into trash/ that fails; `opsOfA`: from then on a reopen does what `open`
+    does to the directory it finds, `cleanup_orphans` included), crashed anywhere: the reopen yields
+    a permutation of the batches `0 … k-1` with `acknowledged ≤ k ≤ appended`.  (`opsOfA … none`
+    is the fault-free list `opsOf`: checked by the driver on every compared history.) -/
+theorem absorbed_fault_run (h : List Client) (skip : Option Nat) (n : Nat) :
+    Ok (recoverB (run fs0 ((opsOfA h fs0 kv0 skip).take n)))
+        (acked ((opsOfA h fs0 kv0 skip).take n)) (appended ((opsOfA h fs0 kv0 skip).take n))
+    ∧ Ok (recoverA (run fs0 ((opsOfA h fs0 kv0 skip).take n)))
+        (acked ((opsOfA h fs0 kv0 skip).take n)) (appended ((opsOfA h fs0 kv0 skip).take n)) :=
+  crash_recover_A_init h skip n
+
+/-- a single absorbed fault is such a run -/
+theorem absorbed_fault_is_skip {ops : List Op} {i : Nat} {x : Name} (h : ops[i]? = some (Op.sstTrash x)) :
+    Skips (faultOps ops i false) ops := skips_fault h
+
+/-- **recovery is crash safe** (a second crash during recovery): for a directory `fs` as a new
+    process finds it (`Img fs k`: whole SSTs, nothing pending, reopening to the batches `0 … k-1`),
+    every prefix of what `KeyValueStore::open` does to it leaves a directory that reopens, under
+    both persistence models, to exactly what `fs` reopens to; the whole of it establishes the
+    block-boundary invariant from which `crash_recover` starts, with next sequence number `k` -/
+theorem recover_block {fs : Fs} {k : Nat} (h : Img fs k) :
+    (∀ m, recoverB (run fs ((recoverOps fs).take m)) = recoverB fs
+        ∧ recoverA (run fs ((recoverOps fs).take m)) = recoverA fs)
+    ∧ Inv (run fs (recoverOps fs)) (kvAfter fs)
+    ∧ (kvAfter fs).next = k
+    ∧ Guarded fs (recoverOps fs)
+    ∧ (∀ op ∈ recoverOps fs, Quiet op) :=
+  Blue.StoreFault.recover_block h
+
+/-- every crash point of every history leaves such a directory: the crash images are in the class
+    `recover_block` is about -/
+theorem crash_image_is_img (h : List Client) (n : Nat) (b : Bool) :
+    ∃ k, acked ((opsOf h kv0).take n) ≤ k ∧ k ≤ appended ((opsOf h kv0).take n)
+      ∧ Img (image b (run fs0 ((opsOf h kv0).take n))) k :=
+  crash_image_img h n b
+
+/-- **any number of incarnations, faults and crashes**: each incarnation opens whatever directory
+    the previous one left, runs any history and is cut at any point of its system-call sequence —
+    inside its recovery too — by a crash under either persistence model, or by a failed call
+    (`fault_epoch`: the same directory).  The last directory is again of the class `Img` and
+    reopens to a permutation of `0 … k'-1` with `k'` between all the acknowledgements the client
+    ever got and all the appends. -/
+theorem epochs_ok (es : List Epoch) (fs : Fs) (k : Nat) (h : Img fs k) :
+    ∃ k', Img (runEpochs fs es) k' ∧ k + ackedEpochs fs es ≤ k' ∧ k' ≤ k + appendedEpochs fs es :=
+  Blue.StoreFault.epochs_ok es fs k h
+
+/-- what `Img … k'` gives: the reopen succeeds under both models with the same permutation of
+    `0 … k'-1` -/
+theorem img_means {fs : Fs} {k : Nat} (h : Img fs k) :
+    ∃ lB lA, recoverB fs = some lB ∧ lB.Perm (List.range k) ∧ recoverA fs = some lA ∧ lA.Perm (List.range k) :=
+  h.recOk
+
+/-- an incarnation ended by a surfaced fault at any call of its recovery or its history is an
+    `Epoch` cut at that call (or right after it, if the call took effect) -/
+theorem fault_epoch {fs : Fs} {k : Nat} (h : Img fs k) (hist : List Client) (i : Nat) (e b : Bool) (op : Op)
+    (hi : (recoverOps fs ++ opsOf hist (kvAfter fs))[i]? = some op)
+    (hc : isCall op = true) (hs : absorbed op = false) :
+    faultOps (recoverOps fs ++ opsOf hist (kvAfter fs)) i e
+      = epochOps fs ⟨hist, if e then i + 1 else i, b⟩
+    ∧ ∃ k', Img (image b (run fs (faultOps (recoverOps fs ++ opsOf hist (kvAfter fs)) i e))) k'
+      ∧ k + faultAcked (recoverOps fs ++ opsOf hist (kvAfter fs)) i ≤ k'
+      ∧ k' ≤ k + appended ((recoverOps fs ++ opsOf hist (kvAfter fs)).take (i + 1)) :=
+  Blue.StoreFault.fault_epoch h hist i e b op hi hc hs
+
+/-- **a compaction with ANY outputs is all-or-nothing** — in particular a garbage-collecting
+    compaction into the last level, whose outputs hold only a part of the inputs' entries: at every
+    crash point of its system-call sequence (`compactOps`, compared with the trace of every
+    compaction of the real store that writes files) the reopen sees the file set before the
+    manifest transaction or the one after it, whole files either way, plus the log; under both
+    persistence models.  What a GC compaction may drop is C05. -/
+theorem gc_compaction_atomic {fs : Fs} {kv : Kv} (h : Inv fs kv) (ins outs : List Name)
+    (hins : ∀ x ∈ ins, x ∈ kv.files) (houts : ∀ o ∈ outs, o ∉ kv.files) (hc : kv.content ∉ outs)
+    (n : Nat) :
+    (recoverB (run fs ((compactOps ins outs).take n)) = some (kv.files.flatten ++ kv.content)
+      ∨ recoverB (run fs ((compactOps ins outs).take n))
+          = some ((applyTx kv.files ⟨outs, ins⟩).flatten ++ kv.content))
+    ∧ (recoverA (run fs ((compactOps ins outs).take n)) = some (kv.files.flatten ++ kv.content)
+      ∨ recoverA (run fs ((compactOps ins outs).take n))
+          = some ((applyTx kv.files ⟨outs, ins⟩).flatten ++ kv.content)) :=
+  any_compact_block h ins outs hins houts hc n
+
+/-- the block of a merge compaction in a history is such a list -/
+theorem merge_block_is_compactOps (kv : Kv) (p : Name → Bool) (outs : List Name) (hv : validCompact kv p outs) :
+    block kv (.compact p outs) = compactOps (kv.files.filter p) outs :=
+  block_compact_eq kv p outs hv
+
+/-- non-vacuity of `gc_compaction_atomic`: the files {0,1} and {2} are compacted into one output
+    holding 1 and 2 (batch 0 is garbage collected): before the manifest sync a crash reopens to all
+    three batches, after it to the two that were kept -/
+example :
+    let pre := opsOf [.put, .put, .flush, .put, .flush] kv0
+    recoverB (run fs0 (pre ++ (compactOps [[0, 1], [2]] [[1, 2]]).take 5)) = some [0, 1, 2]
+    ∧ recoverB (run fs0 (pre ++ (compactOps [[0, 1], [2]] [[1, 2]]).take 6)) = some [1, 2] := by decide
+
+/-- mutant at model level: moving the outputs of a compaction to the trash after its manifest
+    transaction was written but the sync reported an error (what /repo dc44e03 did on its error
+    path until it was corrected) leaves a manifest that lists a file which is gone: the store does
+    not reopen after the process exit -/
+theorem trash_outputs_after_manifest_error_breaks_reopen :
+    let ops := opsOf [.put, .flush, .put, .flush] kv0
+      ++ [Op.tmpCreate [1, 0] [1, 0], .tmpSync [1, 0], .link [1, 0], .tmpUnlink [1, 0],
+          .maniAppend ⟨[[1, 0]], [[0], [1]]⟩, .sstTrash [1, 0]]
+    recoverA (run fs0 ops) = none := by decide
+
+/-- non-vacuity of `absorbed_fault_run`: the first rename into trash/ of a compaction fails, the
+    history goes on with a put and a reopen, whose `cleanup_orphans` moves the left-over file -/
+example :
+    let h : List Client := [.put, .flush, .put, .flush, .compact (fun _ => true) [[1, 0]], .put, .reopen]
+    opsOfA h fs0 kv0 none = opsOf h kv0
+    ∧ (opsOfA h fs0 kv0 (some 28)).drop 38 = [Op.logTrash 2, Op.sstTrash [0], Op.logCreate 3] := by decide
+
+/-- the empty store is of the class -/
+theorem img_empty : Img fs0 0 := img0
+
+/-- non-vacuity of `fault_surfaces`: the log sync of the second put fails; one acknowledgement; the
+    reopen finds both batches after the process exit, the acknowledged one after a power loss -/
+example :
+    let ops := opsOf [.put, .put] kv0
+    ops[4]? = some (Op.logSync 0) ∧ faultAcked ops 4 = 1
+    ∧ recoverA (run fs0 (faultOps ops 4 false)) = some [0, 1]
+    ∧ recoverB (run fs0 (faultOps ops 4 false)) = some [0] := by decide
+
+/-- non-vacuity of `recover_block` / `epochs_ok`: a flush is cut after the SST is linked and before
+    the manifest is written (model b); the recovery of that image is cut right after ITS manifest
+    append, unsynced (model b again); the third incarnation finds both acknowledged batches -/
+example :
+    let e1 : Epoch := ⟨[.put, .put, .flush], 2 + 6 + 4, true⟩
+    let e2 : Epoch := ⟨[], 3, true⟩
+    recoverA (runEpochs fs0 [e1, e2]) = some [0, 1]
+    ∧ (epochOps (runEpochs fs0 [e1]) ⟨[], 100, true⟩).length = 8 := by decide
+
+/-- non-vacuity of `absorbed_faults`: the first of the two renames into trash/ of a compaction fails -/
+example :
+    let ops := opsOf [.put, .flush, .put, .flush, .compact (fun _ => true) [[1, 0]], .put] kv0
+    ops[28]? = some (Op.sstTrash [0]) ∧ surfaced ops 28 = false
+    ∧ recoverB (run fs0 (faultOps ops 28 false)) = some [1, 0, 2] := by decide
+
+end Fault
+
 end Blue.Props.C02
 
 #print axioms Blue.Props.C02.crash_recover
 #print axioms Blue.Props.C02.ok_means
 #print axioms Blue.Props.C02.frame_ops_invisible
 #print axioms Blue.Props.C02.mutants
+#print axioms Blue.Props.C02.fault_surfaces
+#print axioms Blue.Props.C02.absorbed_faults
+#print axioms Blue.Props.C02.absorbed_fault_is_skip
+#print axioms Blue.Props.C02.absorbed_fault_run
+#print axioms Blue.Props.C02.gc_compaction_atomic
+#print axioms Blue.Props.C02.merge_block_is_compactOps
+#print axioms Blue.Props.C02.trash_outputs_after_manifest_error_breaks_reopen
+#print axioms Blue.Props.C02.recover_block
+#print axioms Blue.Props.C02.crash_image_is_img
+#print axioms Blue.Props.C02.epochs_ok
+#print axioms Blue.Props.C02.img_means
+#print axioms Blue.Props.C02.fault_epoch
+#print axioms Blue.Props.C02.img_empty
 #print axioms Blue.LogCrash.crash_prefix
 #print axioms Blue.FlushCrash.crash_recover_B
 #print axioms Blue.FlushCrash.crash_recover_A
